@@ -813,15 +813,20 @@ pub fn gen_planted_reqs(rng: &mut Rng) -> Vec<Req> {
     let mut reqs: Vec<Req> = vec![];
     let nseg = rng.range(1, 3);
     for _ in 0..nseg {
-        let d = match rng.below(6) { 0 => 4usize, 1 => 11, 2 => 15, 3 => 16, 4 => rng.range(5, 64) as usize, _ => rng.range(17, 600) as usize };
-        let m = rng.range(5, 9) as usize;
-        let la = rng.range((120 * m).max(d + 40) as u64, 5000) as usize;
+        // the early "incompressible" test samples every 13th byte: it only fires on blocks of
+        // some 30 KiB or more; the match finders thin out their search after 64 literals without a
+        // match, so the copy is planted at the very start of the segment (= of the meta-block)
+        let d = match rng.below(6) { 0 => 5usize, 1 => 11, 2 => 15, 3 => 16, 4 => rng.range(6, 40) as usize, _ => rng.range(17, 46) as usize };
+        let m = rng.range(6, 10) as usize;
+        let la = rng.range(33000, 70000) as usize;
         let start = stream.len();
         for _ in 0..la { stream.push(rng.next() as u8); }
-        let ncopies = if rng.chance(1, 3) { rng.range(2, 3) as usize } else { 1 };
+        let ncopies = if rng.chance(1, 3) { 2 } else { 1 };
+        let mut p = start + d + rng.range(0, (56 - d - m) as u64 / 2) as usize;
         for _ in 0..ncopies {
-            let p = start + rng.range((d + 8) as u64, (la - m - 8) as u64) as usize;
             for j in 0..m { stream[p + j] = stream[p + j - d]; }
+            p += m + d;
+            if p + m > start + 120 { break; }
         }
         let seg_a = stream[start..].to_vec();
         let lb = rng.range(40, 1500) as usize;
@@ -1161,7 +1166,7 @@ fn stage_plans(args: &Args, n: usize, tag: u64, c01: bool, c04: bool) -> Vec<Tas
         let mut cfg = cfg;
         let mut reqs = gen_reqs(&mut rng, total, style, wf, wm, true);
         let mut total = total;
-        if i % 7 == 3 {
+        if i % 14 == 3 {
             // the "planted" class needs the match finders: quality 2..9
             let q = rng.range(2, 9) as u32;
             cfg.sets.retain(|s| s.0 != 1);
